@@ -5,7 +5,7 @@ patch="$1"; shift
 cd /repo || exit 2
 if [ -n "$(git status --porcelain --untracked-files=no)" ]; then echo "/repo is dirty, refusing"; exit 2; fi
 git apply "$patch" || { echo "patch does not apply"; exit 2; }
-trap 'git -C /repo checkout -- . ' EXIT
+trap 'git -C /repo checkout -- . ; cd /verif/sim && cargo build --release --offline >/dev/null 2>&1' EXIT
 cd /verif/sim && cargo build --release --offline 2>&1 | grep -E "^error" -A8 | head -20
 for id in "$@"; do
     out=$(VERIF_SEED=${VERIF_SEED:-0} /verif/target/release/simcheck run "$id" quick 2>&1)
